@@ -4,9 +4,9 @@ import json
 
 CHECKS = {
     "C02": dict(
-        text="Coq theorems over an executable model of the scheduler (Model/Sched.v, Model/Seq.v): tiling/alignment/duration invariants proved by induction over arbitrary call histories and configurations; the model is tied to /repo on every run by translated definitions (Gen/) and by a correspondence check that evaluates the model inside Coq (vm_compute) on the same call histories as the implementation and compares the state after every call.",
+        text="Coq theorems over an executable model of the scheduler (Model/Sched.v, Model/Seq.v): tiling/alignment/duration invariants proved by induction over arbitrary call histories and configurations; the model is tied to /repo on every run by translated definitions (Gen/) and by a correspondence check that evaluates the model inside Coq (vm_compute) on the same call histories as the implementation and compares the state after every call. validate_duration, adjust_duration, _check_duration and the backwards scan of get_duration are REGENERATED from the source on every run (translate/tr_pure.py -> Gen/Pure.v, Gen/PureLoops.v) and proved equal to the model's functions (C02_source_*), so an edit of their arithmetic or control flow breaks a proof obligation.",
         note="Trusted: Coq kernel + VM, primitive floats, translators and harness, Python/numpy runtime. Pulse fall times (FFT modulation) are oracle inputs of the model. The hand-written model's fidelity is what the correspondence measured on this run's cases.",
-        technique="Coq proof (induction over call histories) + model/implementation correspondence in vm_compute",
+        technique="Coq proof (induction over call histories) + source-to-Gallina translation with equality proofs (tr_pure) + model/implementation correspondence in vm_compute",
         design="5/C02",
     ),
 }
